@@ -42,7 +42,7 @@ TLC_TIMEOUT = {'quick': 240, 'thorough': 800}
 
 # every position must be exercised in every run (else machinery failure)
 POSITIONS = {
-    'expr': ('stmt', 'decl', 'specdecl', 'forinit', 'nesteddecl', 'arrinit', 'assign', 'inc', 'forstep', 'arg',
+    'expr': ('stmt', 'decl', 'specdecl', 'forinit', 'nesteddecl', 'trydecl', 'deadcode', 'sleep', 'arrinit', 'assign', 'inc', 'forstep', 'arg',
              'write', 'ret', 'noret', 'if', 'while', 'for', 'operand', 'unary', 'spec', 'idxsrc', 'idxidx', 'len',
              'elem', 'is'),
     'call': ('overload', 'overload2', 'arity', 'writeext', 'undeclared'),
@@ -58,7 +58,8 @@ ASSUMPTIONS = (
     'views are legal; `.length`/conditions on `[]`; `??` result has the type of its left operand; names '
     'rules T9; == on strings is rejected; `const T[] a = <mutable array>` is rejected',
     'dontcare (Types.tla D1-D5): `(b + b) is int` keeps or loses byte-coercibility; `true is int` -> byte; '
-    '`5 ?? 6` -> byte; `[i, t] is byte[]`; `x is const T[]` and const return types',
+    '`5 ?? 6` -> byte; `[i, t] is byte[]`; `x is const T[]` and const return types; an ill-typed statement '
+    'after `return;` (hidc drops unreachable statements before typechecking them)',
     'compile-time division by zero is avoided in generated expressions (not a typing rule)',
 )
 
